@@ -56,6 +56,25 @@ def check(case, rec):
     same_multiset("neighbour-set", got, want, f"engine={case['engine']} k={k} n={len(seqs)}")
 
 
+def check_planted(case, rec):
+    """Thousands (thorough: tens of thousands) of sequences in one call; the oracle is exact by construction (G.planted_collection)."""
+    n, k = case["n"], case["k"]
+    seqs, fams = G.planted_collection(n, k, case.get("salt", 0), high=case.get("high", True))
+    want = G.planted_neighbours(seqs, fams, k, O.lev)
+    rec.note(case, True, [f"n={n}", f"k={k}"])
+    got = trip(call("search", ENGINES[case["engine"]], list(seqs), max_edits=k))
+    same_multiset("planted-neighbour-set", got, want, f"engine={case['engine']} k={k} n={n} (neighbours exist only inside {len(fams)} planted families)")
+
+
+def enum_planted(tier):
+    sizes = [(600, 1), (2500, 1), (2500, 2)] if tier == "quick" else [(600, 1), (2500, 2), (9000, 1), (50000, 1)]
+    for n, k in sizes:
+        for engine in ("symdel", "nearest_neighbor"):
+            if n > 9000 and engine == "nearest_neighbor":
+                continue
+            yield {"n": n, "k": k, "engine": engine, "salt": n % 13, "high": True}
+
+
 def universe(case):
     seqs = O.all_strings(case["alphabet"], case["L"])
     r = case.get("rot", 0) % len(seqs)
@@ -93,6 +112,7 @@ def random_case(draw, tier="quick"):
 
 SUBS = [
     Sub("exhaustive", check, enum=enum_cases),
+    Sub("planted_large", check_planted, enum=enum_planted),
     Sub("random", check, strategy=lambda tier: random_case(tier), budget=(3000, 40000)),
 ]
 
